@@ -679,7 +679,7 @@ TreeOpOK(e, idx) ==
   /\ Has(e, "C04") => ChkF6("C04", idx, C04OK(e), "tree-touching", Len(e.tree) = Len(e.flat) /\ TouchingPolys(e) /\ ContainedInParents(e),
                                         "tree-drops-line-paths", C04SigLinePaths(e), "tree-sliver-orientation", C04SigSliver(e),
                                         "tree-needle-vertex", C04SigNeedle(e),
-                                        \* not a touching case (required by the counter-factual finding tree-join-owner)
+                                        \* not a touching case (kept as a diagnostic marker; the finding that required it has been repaired)
                                         "tree-apart", ~TouchingPolys(e))
 
 (***************************************************************************)
